@@ -20,7 +20,7 @@ ASSUMPTIONS = [
     "the documented meaning of the eight bin types is the one in the -b help text",
 ]
 
-GRID = [0.0, 1.0, 2.5]
+GRID = [0.0, 0.1, 2.5]   # 0.1 is not representable in float32
 
 
 def threshold_lists():
@@ -164,7 +164,8 @@ def check_case(case, ctx):
 
 
 def rand_strategy(tier):
-    fl = st.floats(allow_nan=False, allow_infinity=False, width=32, min_value=-1e6, max_value=1e6)
+    fl = st.one_of(st.floats(allow_nan=False, allow_infinity=False, width=64, min_value=-1e6, max_value=1e6),
+                   st.sampled_from([0.1, 0.3, 0.7, -0.2, 1e-7, 123456.789, 1.0, 2.5]))
     val = st.one_of(fl, st.just(float("nan")), st.sampled_from([float("inf"), float("-inf")]))
 
     @st.composite
